@@ -93,7 +93,8 @@ sharp sense: from point 4 (`write`, after `write_all` returned) on, a new store 
 retention is retiring this very checkpoint (`max_checkpoints = 0`). -/
 theorem numbered_point_complete_from_write (c : Codec) (hc : c.Lawful) (cfg : Cfg) (hf : cfg.file = true)
     (W : World) (k : Nat) (hk : 4 ≤ k) (S : World) (hS : S.fs = crashAt c cfg W k)
-    (hv : victimOf cfg.maxCk W.metas (newId cfg W) ≠ some (newId cfg W)) :
+    (hv : victimOf cfg.maxCk W.metas (newId cfg W) ≠ some (newId cfg W))
+    (he : encodable c (live W.store W.clock) = true) :
     restore c cfg S (newId cfg W) = ({ S with store := load (live W.store W.clock) S.clock }, .ok) := by
   have hfile : fget (crashAt c cfg W k) (newId cfg W) = some (some (c.ser (live W.store W.clock))) := by
     obtain ⟨j, rfl⟩ : ∃ j, k = 4 + j := ⟨k - 4, by omega⟩
@@ -152,7 +153,15 @@ theorem numbered_point_complete_from_write (c : Codec) (hc : c.Lawful) (cfg : Cf
         · subst h; simp [PStep.expand] at hsp
           rcases hsp with h | h <;> (subst h; exact hvi)
         · subst h; simp [PStep.expand] at hsp
-  simp [restore, hf, hS, hfile, hc.roundtrip]
+  simp [restore, hf, hS, hfile, hc.roundtrip _ he]
+
+/-- the hypothesis `encodable` of `numbered_point_complete_from_write` is needed: the checkpoint of a store holding
++inf (value index 21) next to an ordinary key is an error for a new store at EVERY point, the completed call included -/
+theorem numbered_point_needs_encodable_counterexample :
+    let W := run natCodec {} init [.put 0 7, .put 1 21]
+    (List.range 9).map (fun k => (restore natCodec {} (reopen (crashAt natCodec {} W k) 5) ⟨0, 0⟩).2)
+      = [.errNotFound, .errNotFound, .errNotFound, .errParse, .errParse, .errParse, .errParse, .errParse, .errParse] := by
+  decide
 
 example : victimOf ({} : Cfg).maxCk (run natCodec {} init [.put 0 7]).metas (newId {} (run natCodec {} init [.put 0 7]))
     ≠ some (newId {} (run natCodec {} init [.put 0 7])) := by decide
@@ -285,7 +294,7 @@ theorem restore_after_crash_then_continue (c : Codec) (hc : c.Lawful) (cfg : Cfg
     let W₁ := run c cfg (reopen F t) pre
     let i := (checkpoint c cfg W₁).2
     let W₃ := run c cfg (checkpoint c cfg W₁).1 post
-    ((i ∈ W₃.metas.map (·.id) →
+    ((i ∈ W₃.metas.map (·.id) → encodable c (live W₁.store W₁.clock) = true →
         (restore c cfg W₃ i).2 = .ok
         ∧ live (restore c cfg W₃ i).1.store (restore c cfg W₃ i).1.clock = live W₁.store W₁.clock)
       ∧ (i ∉ W₃.metas.map (·.id) → restore c cfg W₃ i = (W₃, .errNotFound)))
@@ -303,11 +312,11 @@ theorem restore_after_crash_then_continue (c : Codec) (hc : c.Lawful) (cfg : Cfg
     obtain ⟨_, hcase⟩ := ht
     have hnd := live_nodup W₁.clock h1.store_nodup
     constructor
-    · intro hin
+    · intro hin he
       rcases hcase with ⟨_, hfs⟩ | ⟨hnot, _⟩
       · have hr : restore c cfg W₃ i
             = ({ W₃ with store := load (live W₁.store W₁.clock) W₃.clock }, .ok) := by
-          simp [restore, hf, hfs, hc.roundtrip]
+          simp [restore, hf, hfs, hc.roundtrip _ he]
         rw [hr]
         exact ⟨rfl, live_load _ _ hnd⟩
       · exact absurd hin hnot
